@@ -1,1 +1,264 @@
-/-! Property theorems for C09 (stub: not built yet). -/
+import UsualProofs.C09.SafeMulProofs
+import UsualProofs.C09.PoolMem
+import UsualProofs.C09.PoolWrap
+/-! Property theorems for C09 — allocators hand out aligned, disjoint, stable blocks and return
+    all memory; size computations never wrap.
+
+    Models: `Usual.C09.{SafeMul,Pool,TreeAlloc,Slab,MemPool}` (mirroring usual/bits.h,
+    usual/cxextra.c, usual/slab.c, usual/mempool.c after the repairs F04, F05, F19, F20, F21).
+    Spec notions (`Inv`, `Reach`, `OpOk`, `ParentOk`, `Block`, `copy`) are in
+    `UsualProofs/C09/Pool{Inv,Hist,Mem,Wrap}.lean`. -/
+namespace UsualProps.C09
+open Usual.C09 UsualProofs.C09
+
+/-! ## safe_mul_* -/
+
+/-- `safe_mul_<type>` (any unsigned type of even bit-width `w`, operands in range) returns true
+    exactly when the mathematical product fits into the type … -/
+theorem safeMul_iff (w a b : Nat) (hw : w % 2 = 0) (ha : a < 2 ^ w) (hb : b < 2 ^ w) :
+    (safeMul w a b).isSome ↔ a * b < 2 ^ w := by
+  rw [safeMul_eq w a b hw ha hb]; split <;> simp_all
+
+example : (safeMul 16 255 257).isSome ∧ ¬ (safeMul 16 256 256).isSome := by decide
+
+/-- … and then stores exactly the product. -/
+theorem safeMul_value (w a b r : Nat) (hw : w % 2 = 0) (ha : a < 2 ^ w) (hb : b < 2 ^ w)
+    (h : safeMul w a b = some r) : r = a * b := by
+  rw [safeMul_eq w a b hw ha hb] at h; split at h <;> simp_all
+
+example : safeMul 8 15 17 = some 255 := by decide
+
+/-- `reallocarray(p, count, size)` either fails before calling `realloc` or asks `realloc` for
+    exactly `count·size` bytes (so what it delivers holds at least `count × size` bytes). -/
+theorem reallocarray_ok (count size : Nat) (hc : count < 2 ^ 64) (hs : size < 2 ^ 64) :
+    (reallocarrayReq count size = none ∧ 2 ^ 64 ≤ count * size) ∨
+    reallocarrayReq count size = some (count * size) := by
+  unfold reallocarrayReq
+  rw [safeMul_eq 64 count size (by decide) hc hs]
+  split
+  · right; rfl
+  · left; exact ⟨rfl, by omega⟩
+
+example : reallocarrayReq (2 ^ 32) (2 ^ 32) = none ∧ reallocarrayReq (2 ^ 32) (2 ^ 31) = some (2 ^ 63) := by
+  decide
+
+/-- `talloc_array` & friends (`_talloc_const_name`): fails or allocates a payload of exactly
+    `elem_size·count` bytes. -/
+theorem talloc_array_ok (elem count : Nat) (he : elem < 2 ^ 64) (hc : count < 2 ^ 64) :
+    (tallocArrayReq elem count = none ∧ 2 ^ 64 ≤ elem * count) ∨
+    tallocArrayReq elem count = some (elem * count) := by
+  unfold tallocArrayReq
+  rw [safeMul_eq 64 elem count (by decide) he hc]
+  split
+  · right; rfl
+  · left; exact ⟨rfl, by omega⟩
+
+example : tallocArrayReq 24 1000 = some 24000 := by decide
+
+/-- `talloc_realloc` (`_talloc_realloc`): fails or resizes to exactly `elem_size·count` bytes. -/
+theorem talloc_realloc_ok (elem count n : Nat) (he : elem < 2 ^ 64) (hc : count < 2 ^ 64)
+    (h : tallocReallocReq elem count = some n) : n = elem * count := by
+  unfold tallocReallocReq at h
+  rw [safeMul_eq 64 elem count (by decide) he hc] at h
+  split at h
+  · cases h
+  · rename_i size heq
+    split at heq
+    · simp only [Option.some.injEq] at heq
+      subst heq
+      split at h
+      · cases h
+      · simp only [Option.some.injEq] at h; omega
+    · cases heq
+
+example : tallocReallocReq 8 3 = some 24 ∧ tallocReallocReq (2 ^ 33) (2 ^ 33) = none := by decide
+
+/-! ## cx pool (cx_new_pool / cx_new_pool_from_area) -/
+
+/-- In every state reachable by any history of `cx_alloc`/`cx_realloc`/`cx_free` on a pool created
+    with any alignment and any initial area, over any parent that answers with fresh memory:
+    every segment satisfies `seg_start ≤ seg_pos ≤ seg_end`, `seg_pos` is aligned (or the segment
+    is the empty first segment of an area too small to hold an aligned byte), the window lies
+    behind the header inside the region obtained from the parent, and the regions of different
+    segments do not overlap. -/
+theorem pool_inv {s : HState} (h : Reach s) :
+    (∀ seg ∈ s.pool.segs,
+      seg.start ≤ seg.pos ∧ seg.pos ≤ seg.stop ∧
+      (seg.pos % s.pool.align = 0 ∨ seg.start = seg.stop) ∧
+      seg.base < seg.hdrEnd ∧ seg.hdrEnd ≤ seg.start ∧ seg.stop ≤ seg.base + seg.size) ∧
+    s.pool.segs.Pairwise (fun a b => a.base + a.size ≤ b.base ∨ b.base + b.size ≤ a.base) := by
+  obtain ⟨hi, _⟩ := reach_inv h
+  refine ⟨?_, hi.seg_disj⟩
+  intro seg hseg
+  obtain ⟨a1, a2, a3, a4, a5, _, a7⟩ := hi.seg_ok seg hseg
+  exact ⟨a3, a4, a7, a1, a2, a5⟩
+
+/-- a history used for the non-vacuity examples: pool of 1024 bytes, align 64, parent regions at
+    addresses that are only 16-aligned; 1000 bytes, then 3000 bytes (new segment), shrink the
+    last block to 5 bytes, 100 more bytes, free a non-last block -/
+def exHist : HState :=
+  let p0 := (newPool 1024 64 (some 100016)).get!
+  let s0 : HState := ⟨p0, [], [(100016, newPoolReq 1024)]⟩
+  let s1 := step s0 (.alloc 1000 none)
+  let s2 := step s1 (.alloc 3000 (some 200016))
+  let q := (s2.live.head!).ptr
+  let s3 := step s2 (.realloc q 5 none)
+  let s4 := step s3 (.alloc 100 none)
+  step s4 (.free (s1.live.head!).ptr)
+
+example : exHist.pool.segs.map (fun g => (g.start, g.pos, g.stop)) = [(200064, 200256, 204208), (100096, 101120, 101120)]
+    ∧ exHist.live = [⟨200128, 100⟩, ⟨200064, 5⟩] := by decide
+
+/-- Every block a pool returns from `cx_alloc` is aligned to the pool's alignment, lies inside
+    one live segment — behind its header and inside the region obtained from the parent — and is
+    disjoint from every block the client still holds. -/
+theorem pool_block_ok {s : HState} {len q : Nat} {pa : Option Nat} {p' : Pool} (h : Reach s)
+    (hok : OpOk s (.alloc len pa)) (hr : cxAlloc s.pool len pa = some (p', q)) :
+    q % s.pool.align = 0 ∧
+    (∃ seg ∈ p'.segs, seg.hdrEnd ≤ q ∧ seg.base < q ∧ q + len ≤ seg.pos ∧ seg.pos ≤ seg.base + seg.size) ∧
+    (∀ b ∈ s.live, q + len ≤ b.ptr ∨ b.ptr + b.len ≤ q) := by
+  have hs := step_inv (reach_inv h) hok
+  simp only [step, hr] at hs
+  obtain ⟨hi, _⟩ := hs
+  have hal : p'.align = s.pool.align := by
+    unfold cxAlloc at hr
+    split at hr
+    · cases hr
+    · exact (alloc_align hr).1
+  refine ⟨?_, ?_, ?_⟩
+  · have := hi.blk_al ⟨q, len⟩ (List.mem_cons_self ..)
+    rw [hal] at this; exact this
+  · obtain ⟨seg, hseg, hin⟩ := hi.blk_in ⟨q, len⟩ (List.mem_cons_self ..)
+    obtain ⟨a1, a2, a3, a4, a5, _, _⟩ := hi.seg_ok seg hseg
+    simp only [InSeg] at hin
+    exact ⟨seg, hseg, by omega, by omega, hin.2, by omega⟩
+  · intro b hb
+    have := (List.pairwise_cons.mp hi.blk_disj).1 b hb
+    simp only [blkDisj] at this
+    exact this
+
+/-- The same for the block returned by `cx_realloc` (compared with the *other* blocks). -/
+theorem pool_realloc_block_ok {s : HState} {ptr len q n : Nat} {pa : Option Nat} {p' : Pool}
+    (h : Reach s) (hlen : len ≠ 0) (hok : OpOk s (.realloc ptr len pa))
+    (hr : realloc s.pool ptr len pa = some (p', q, n)) :
+    q % s.pool.align = 0 ∧
+    (∃ seg ∈ p'.segs, seg.hdrEnd ≤ q ∧ seg.base < q ∧ q + len ≤ seg.pos ∧ seg.pos ≤ seg.base + seg.size) ∧
+    (∀ b ∈ s.live, b.ptr ≠ ptr → q + len ≤ b.ptr ∨ b.ptr + b.len ≤ q) := by
+  have hs := step_inv (reach_inv h) hok
+  simp only [step, hlen, if_false, hr] at hs
+  obtain ⟨hi, _⟩ := hs
+  have hi0 := (reach_inv h).1
+  have hal : p'.align = s.pool.align := by
+    have := realloc_inv hi0 (Nat.pos_of_ne_zero hlen)
+      (by simp only [OpOk, cxReallocReq, hlen, if_false] at hok; exact hok.2) hr
+    -- alignment field never changes: read it off the model
+    unfold realloc at hr
+    split at hr
+    · cases hr
+    · split at hr
+      · simp only [reallocOther] at hr
+        cases hal : alloc s.pool len pa with
+        | none => simp [hal] at hr
+        | some r =>
+          simp only [hal, Option.map_some, Option.some.injEq, Prod.mk.injEq] at hr
+          rw [← hr.1]; exact (alloc_align (p' := r.1) (q := r.2) (by rw [hal])).1
+      · split at hr
+        · rename_i sg rest hsegs
+          simp only [reallocLast] at hr
+          split at hr
+          · simp only [Option.some.injEq, Prod.mk.injEq] at hr
+            rw [← hr.1]
+          · cases hal : alloc s.pool (alignUp len s.pool.align) pa with
+            | none => simp [hal] at hr
+            | some r =>
+              simp only [hal, Option.map_some, Option.some.injEq, Prod.mk.injEq] at hr
+              rw [← hr.1]; exact (alloc_align (p' := r.1) (q := r.2) (by rw [hal])).1
+        · cases hr
+  refine ⟨?_, ?_, ?_⟩
+  · have := hi.blk_al ⟨q, len⟩ (List.mem_cons_self ..)
+    rw [hal] at this; exact this
+  · obtain ⟨seg, hseg, hin⟩ := hi.blk_in ⟨q, len⟩ (List.mem_cons_self ..)
+    obtain ⟨a1, a2, a3, a4, a5, _, _⟩ := hi.seg_ok seg hseg
+    simp only [InSeg] at hin
+    exact ⟨seg, hseg, by omega, by omega, hin.2, by omega⟩
+  · intro b hb hne
+    have := (List.pairwise_cons.mp hi.blk_disj).1 b (mem_dropPtr.mpr ⟨hb, hne⟩)
+    simp only [blkDisj] at this
+    exact this
+
+/-- Contents are stable: `cx_realloc` on a pool delivers the first `min(old,new)` bytes of the
+    block at the returned address; the `memcpy` it performs (if any) reads inside the used part of
+    one segment and writes to a range that does not overlap the source; and the bytes of every
+    other block the client holds are untouched.  (`cx_alloc`/`cx_free` write nothing but
+    segment headers, which `pool_block_ok` places outside every block.) -/
+theorem pool_realloc_preserves {s : HState} {ptr olen len q n : Nat} {pa : Option Nat} {p' : Pool}
+    (m : Mem) (h : Reach s) (hb : ⟨ptr, olen⟩ ∈ s.live) (hlen : len ≠ 0)
+    (hok : OpOk s (.realloc ptr len pa)) (hr : realloc s.pool ptr len pa = some (p', q, n)) :
+    (∀ i, i < min olen len → copy m q ptr n (q + i) = m (ptr + i)) ∧
+    (n = 0 ∨ ((q + n ≤ ptr ∨ ptr + n ≤ q) ∧ ∃ t ∈ s.pool.segs, t.start ≤ ptr ∧ ptr + n ≤ t.pos)) ∧
+    (∀ b ∈ s.live, b.ptr ≠ ptr → ∀ i, i < b.len → copy m q ptr n (b.ptr + i) = m (b.ptr + i)) := by
+  simp only [OpOk, cxReallocReq, hlen, if_false] at hok
+  exact realloc_mem m (reach_inv h).1 hb hok.2 hr
+
+/-- `cx_destroy(pool)` hands back to the parent exactly the regions the pool obtained from it
+    (the area of `cx_new_pool` and one region per segment; for `cx_new_pool_from_area` the area
+    only when `allow_free` was given), each exactly once. -/
+theorem pool_destroy_returns_once {s : HState} (h : Reach s) :
+    destroy s.pool = s.obtained.reverse ∧ (destroy s.pool).Nodup := by
+  obtain ⟨hi, ho⟩ := reach_inv h
+  exact ⟨ho.2, destroy_nodup hi⟩
+
+example : destroy exHist.pool = [(200016, 4192), (100016, 1104)] ∧ exHist.obtained = [(100016, 1104), (200016, 4192)] := by
+  decide
+
+/-- Size computations of `pool_alloc` never wrap: for every request the pool does not refuse
+    outright (`size ≤ SIZE_MAX/4`), in any reachable state whose regions lie below 2^62,
+    the sum inside `CUSTOM_ALIGN`, the aligned size, `seg_pos + size`, twice the segment length,
+    every value `nsize` takes while doubling and the byte count asked from the parent are below
+    2^64 (so the model's arithmetic on `Nat` is the C arithmetic on `size_t`), and the doubling
+    loop ends with `nsize ≥ size`. -/
+theorem pool_no_wrap {s : HState} {size : Nat} (h : Reach s) (ha : AddrOk s.pool)
+    (hmax : size ≤ poolMaxSize) :
+    size + s.pool.align - 1 < 2 ^ 64 ∧ alignUp size s.pool.align < 2 ^ 63 ∧
+    (∀ g ∈ s.pool.segs, g.pos + alignUp size s.pool.align < 2 ^ 64 ∧ 2 * (g.stop - g.start) < 2 ^ 63) ∧
+    (∀ k, k ≤ 64 → growTo k (segSizeStart s.pool) (alignUp size s.pool.align) < 2 ^ 64) ∧
+    alignUp size s.pool.align ≤ nextSegSize s.pool (alignUp size s.pool.align) ∧
+    segAlloc s.pool (nextSegSize s.pool (alignUp size s.pool.align)) < 2 ^ 64 :=
+  alloc_no_wrap (reach_inv h).1 ha hmax
+
+example : AddrOk exHist.pool := by
+  intro g hg
+  have : exHist.pool.segs.map (fun g => g.base + g.size) = [204208, 101120] := by decide
+  have h2 : g.base + g.size ∈ exHist.pool.segs.map (fun g => g.base + g.size) := List.mem_map_of_mem hg
+  rw [this] at h2
+  simp at h2
+  omega
+
+/-! ### the unchanged code violates the property (F4, F5, K2) -/
+
+/-- F4, unchanged `pool_realloc`: `a = alloc(8); realloc(a, 5); b = alloc(8)` on a pool with
+    alignment 8 returns a block at an address ≡ 5 (mod 8). -/
+theorem pool_f4_old_counterexample :
+    ∃ p0 p1 p2 p3 a b, newPool 1024 8 (some 4096) = some p0 ∧ allocOld 64 p0 8 none = some (p1, a) ∧
+      reallocLastOld p1 a 5 = some (p2, a) ∧ allocOld 64 p2 8 none = some (p3, b) ∧ b % 8 = 5 := by
+  refine ⟨_, _, _, _, _, _, rfl, rfl, rfl, rfl, ?_⟩
+  decide
+
+/-- F5, unchanged `new_seg`/`pool_alloc`: pool with alignment 64 whose parent returns 16-aligned
+    memory; a request of 2048 bytes that needs a new segment is handed `[200064, 202112)` although
+    the region obtained from the parent for that segment ends at 202096. -/
+theorem pool_f5_old_counterexample :
+    ∃ p0 p1 q, newPool 1024 64 (some 100016) = some p0 ∧
+      allocOld 64 p0 2048 (some 200016) = some (p1, q) ∧
+      ∀ g ∈ p1.segs, ¬ (g.base ≤ q ∧ q + 2048 ≤ g.base + g.size) := by
+  refine ⟨_, _, _, rfl, rfl, ?_⟩
+  decide
+
+/-- K2, unchanged `pool_alloc`: for a request of 2^31+8 bytes the loop
+    `while (nsize < size) nsize *= 2` over `unsigned nsize` does not end, whatever number of
+    rounds it is given (the repaired loop ends: `pool_no_wrap`). -/
+theorem pool_k2_old_counterexample (fuel : Nat) :
+    growToOld fuel 2048 (2 ^ 31 + 8) < 2 ^ 31 + 8 :=
+  growToOld_never fuel
+
+end UsualProps.C09
